@@ -54,6 +54,24 @@ var cmpToken = map[action]token.Token{
 	aLowerEqual:   token.LEQ,
 }
 
+// arithToken gives the token of an arithmetic operation, to evaluate it exactly on constant operands.
+var arithToken = map[action]token.Token{
+	aAdd:    token.ADD,
+	aSub:    token.SUB,
+	aMul:    token.MUL,
+	aQuo:    token.QUO,
+	aRem:    token.REM,
+	aAnd:    token.AND,
+	aOr:     token.OR,
+	aXor:    token.XOR,
+	aAndNot: token.AND_NOT,
+	aShl:    token.SHL,
+	aShr:    token.SHR,
+	aBitNot: token.XOR,
+	aNeg:    token.SUB,
+	aPos:    token.ADD,
+}
+
 // constOperand returns the value of n if n is a boolean, numeric or string constant, or nil.
 func constOperand(n *node) constant.Value {
 	// The value is the one of the outermost expression, possibly converted to the type of the other operand.
@@ -1078,6 +1096,9 @@ func (interp *Interpreter) cfg(root *node, sc *scope, importPath, pkgName string
 			if c0.rval.IsValid() && c1.rval.IsValid() && (!isInterface(n.typ)) && constOp[n.action] != nil {
 				n.typ.TypeOf()       // Force compute of reflection type.
 				constOp[n.action](n) // Compute a constant result now rather than during exec.
+				if err = check.typedConstOp(n); err != nil {
+					break
+				}
 			}
 			switch {
 			case n.rval.IsValid():
@@ -2515,6 +2536,9 @@ func (interp *Interpreter) cfg(root *node, sc *scope, importPath, pkgName string
 			if n.child[0].rval.IsValid() && !isInterface(n.typ) && constOp[n.action] != nil {
 				n.typ.TypeOf() // init reflect type
 				constOp[n.action](n)
+				if err = check.typedConstOp(n); err != nil {
+					break
+				}
 			}
 			switch {
 			case n.rval.IsValid():
